@@ -159,8 +159,8 @@ func c01(r *Run) {
 	w := r.W
 	// parallel == sequential additionally rests on the executor's conflict edges and on the view's equality oracle
 	defer func() {
-		r.importRules(c08, "C08.R2", "C08.R3")
-		r.importRules(c04, "C04.R3", "C04.R4")
+		r.importRules(c08, "C08.R2", "C08.R3", "C08.R6")
+		r.importRules(c04, "C04.R3", "C04.R4", "C04.R5")
 		// each task sees the complete prefetched state of its own transaction
 		r.importRules(c24, "C24.R7")
 	}()
@@ -283,6 +283,9 @@ func c02(r *Run) {
 	w := r.W
 	// the builder skips transactions Consume rejects and keeps packing: agreement on consumption rests on Consume being all-or-nothing
 	defer r.importRules(c12, "C12.R3")
+	// the builder relies on the mempool's streamed-items marks to keep a transaction out of the block under
+	// construction twice (the verifier rejects such a block)
+	defer r.importRules(c09, "C09.R8")
 	r.rule("C02.R1", "K12", "builder and verifier write the same metadata keys with the same encodings", 7)
 	r.rule("C02.R2", "K5", "one timestamp / height / root / fee manager feeds every consumer in the builder", 10)
 	r.rule("C02.R3", "K1", "Commit, block append and result append are together, after PreExecute/Execute succeeded and Consume accepted", 4)
